@@ -166,6 +166,7 @@ func h08(orderOnly bool) {
 	docSpecs = nil
 	files := map[string]string{}
 	names := []string{"templates/a.yaml", "templates/b.yaml", "templates/_helpers.tpl"}
+
 	nf := ndIntRange("files", 1, vBound("files", 2))
 	if orderOnly {
 		nf = 1
@@ -174,6 +175,10 @@ func h08(orderOnly bool) {
 	layout := 0
 	if !orderOnly {
 		layout = ndChoice("layout", 4)
+	}
+	if !orderOnly && layout == 0 && ndBool("underscoreDirectory") {
+		// only a FILE name starting with "_" marks a partial; a directory named like that does not
+		names[0] = "templates/_internal/a.yaml"
 	}
 	if layout == 1 {
 		partialFile = nf // an extra _-prefixed file whose documents must never appear
